@@ -149,7 +149,7 @@ def tag_checks(eff):
             continue
         c = x["cond"]
         if c[0] == "op" and c[1] in ("!=", "==") and c[2][0] == "var" and c[3][0] == "int":
-            exits = x["then_exits"] if c[1] == "!=" else x["else_exits"]
+            exits = (x.get("then_status") == "exit") if c[1] == "!=" else (x.get("else_status") == "exit")
             out[c[2]] = (c[3][1], exits, x["l"])
     return out
 
@@ -203,7 +203,7 @@ def compare(chk, v, tname, W, R, where, vn):
     guards = {}
     for x in flat(R["eff"]):
         if x["e"] == "if" and x["cond"][0] == "op" and x["cond"][1] in ("!=", "=="):
-            fatal = x["then_exits"] if x["cond"][1] == "!=" else x["else_exits"]
+            fatal = (x.get("then_status") == "exit") if x["cond"][1] == "!=" else (x.get("else_status") == "exit")
             if not fatal:
                 continue
             a, b = x["cond"][2], x["cond"][3]
